@@ -1,11 +1,108 @@
 package main
 
+// Must-fail corpus: every mutant is a realistic breaking edit of /repo applied in memory through
+// packages.Config.Overlay; the property's check must then report a violation that names one of the
+// expected obligations. Known findings double as canaries (their suppression is exercised on every run).
+
 import (
+	"encoding/json"
 	"fmt"
 	"os"
+	"path/filepath"
+	"strings"
 )
 
+type Mutant struct {
+	ID       string   `json:"id"`
+	Property string   `json:"property"`
+	File     string   `json:"file"` // relative to the repo
+	Find     string   `json:"find"`
+	Replace  string   `json:"replace"`
+	Expect   []string `json:"expect"` // substrings, one of which must occur in a failed obligation's name
+	Note     string   `json:"note"`
+}
+
 func runSelftest(args []string) int {
-	fmt.Fprintln(os.Stderr, "selftest: not built yet")
+	root := verifRoot()
+	repo := "/repo"
+	only := ""
+	for i := 0; i < len(args); i++ {
+		if args[i] == "--repo" && i+1 < len(args) {
+			repo = args[i+1]
+			i++
+		} else {
+			only = args[i]
+		}
+	}
+	data, err := os.ReadFile(filepath.Join(root, "selftest", "mutants.json"))
+	if err != nil {
+		fmt.Fprintln(os.Stderr, "selftest:", err)
+		return 2
+	}
+	var ms []Mutant
+	if err := json.Unmarshal(data, &ms); err != nil {
+		fmt.Fprintln(os.Stderr, "selftest:", err)
+		return 2
+	}
+	bad := 0
+	n := 0
+	for _, m := range ms {
+		if only != "" && m.Property != only && m.ID != only {
+			continue
+		}
+		n++
+		path := filepath.Join(repo, m.File)
+		src, err := os.ReadFile(path)
+		if err != nil {
+			fmt.Printf("MUTANT %-40s ERROR %v\n", m.ID, err)
+			bad++
+			continue
+		}
+		if strings.Count(string(src), m.Find) != 1 {
+			fmt.Printf("MUTANT %-40s ERROR pattern occurs %d times in %s\n", m.ID, strings.Count(string(src), m.Find), m.File)
+			bad++
+			continue
+		}
+		mut := strings.Replace(string(src), m.Find, m.Replace, 1)
+		code, out := runCheck(m.Property, "quick", repo, map[string][]byte{path: []byte(mut)}, false)
+		hit := ""
+		if out != nil {
+			for _, o := range out.obligs {
+				if o.Status == "proved" {
+					continue
+				}
+				for _, e := range m.Expect {
+					if strings.Contains(o.Name, e) {
+						hit = o.Name
+					}
+				}
+			}
+			if hit == "" && len(m.Expect) == 0 && len(out.violations) > 0 {
+				hit = out.violations[0]
+			}
+			for _, v := range out.violations {
+				for _, e := range m.Expect {
+					if strings.Contains(v, fileSafe.ReplaceAllString(e, "_")) && hit == "" {
+						hit = v
+					}
+				}
+			}
+		}
+		if code == 1 && hit != "" {
+			fmt.Printf("MUTANT %-40s caught   (%s)\n", m.ID, hit)
+		} else {
+			fmt.Printf("MUTANT %-40s MISSED   exit=%d\n", m.ID, code)
+			if out != nil {
+				for _, v := range out.violations {
+					fmt.Println("    ", v)
+				}
+			}
+			bad++
+		}
+	}
+	fmt.Printf("selftest: %d mutants, %d not caught\n", n, bad)
+	if bad > 0 {
+		return 1
+	}
 	return 0
 }
